@@ -28,6 +28,8 @@ func checkC10(p *Prog, r *Report) {
 	c10StartDate(p, r)
 	c10Dueng(p, r)
 	c10Writers(p, r)
+	// a scheduled tillage must not be postponed before the crop is sown (shared with C16.R14)
+	tillagePostponement(p, r, "C10.R12")
 	// schedule dates are text in the configured date format ("all date formats")
 	dateTextRules(p, r, "C10.R9")
 	inputHelpers(p, r, "C10.R10")
